@@ -430,6 +430,19 @@ def bool_relation(a: ast.AST, b: ast.AST) -> Optional[str]:
     return 'same' if same else ('negated' if neg else None)
 
 
+def satisfiable(lits: List[Tuple[ast.AST, bool]]) -> Optional[bool]:
+    """Is the conjunction of the literals (test, polarity) propositionally satisfiable?  None with more than 12 atoms."""
+    import itertools
+    atoms: Dict[str, int] = {}
+    ps = [(_prop(t, atoms), pol) for t, pol in lits]
+    if len(atoms) > 12:
+        return None
+    for vals in itertools.product([False, True], repeat=len(atoms)):
+        if all(_eval(p_, vals) == pol for p_, pol in ps):
+            return True
+    return False
+
+
 def cond_value_of(nodes, target: Optional[str] = None):
     """Like cond_values, restricted to one target text ('return' for returns)."""
     return [c for c in cond_values(nodes) if target is None or c[0] == target]
